@@ -269,6 +269,10 @@ def run(ck):
     ck.mc("MC_LimbField", "MC_LimbField_neg.cfg", note="kept counterexample: one more bit of headroom overflows", workers=8, expect_violation=True)
     if not quick:
         ck.mc("MC_LimbField", "MC_LimbField_251.cfg", note="radix-2^4 x 2 limbs, p=251", workers=8)
+    # --- Apalache: the u64 kernels as transcribed, for ALL limb vectors at full size
+    ck.apalache("AP_AsBytes51", 2, "u64 as_bytes returns the canonical representative for every five 64-bit limbs")
+    ck.apalache("AP_Mul51", 2, "u64 mul contract (value, accumulators < 2^128, carries < 2^64, post-bounds) for all limbs < 2^54", cinit="CInit54")
+    ck.apalache("AP_Mul51", 2, "kept counterexample: the contract fails for limbs < 2^55", cinit="CInit55", expect_violation=True)
     # --- conformance
     backends = ALL_BACKENDS
     bins = build_many([(b, True, "release", ()) for b in backends], jobs=3)
